@@ -139,3 +139,21 @@ Definition flags_clean (tbl : list (list N * list (list N))) (has_plural : bool)
         In (format_flag TpPos n1) F -> In (format_flag TpPos n2) F -> compatible tbl n1 n2 = true)
   /\ (forall name tp1 tp2, In name (map fst tbl) -> bad_pair tp1 tp2 ->
         ~ (In (format_flag tp1 name) F /\ In (format_flag tp2 name) F)).
+
+(* ------------------------------------------------------------------ *)
+(* a catalog that violates none of the documented rules (cfg: file kind, known encoding, string-format table, oracles) *)
+Definition clean_message (cfg : config) (cat : list msg_entry) (j : nat) (e : msg_entry) : Prop :=
+  earlier_definitions cat j e <> 1%nat
+  /\ (c_template cfg = true -> ~ translated e)
+  /\ (me_previous e = true -> fuzzy e)
+  /\ (forall s, considered e s -> (leading_nl s <-> leading_nl (me_msgid e)) /\ (trailing_nl s <-> trailing_nl (me_msgid e)))
+  /\ (~ fuzzy e -> ~ partially_translated e)
+  /\ (~ fuzzy e -> forall s m, translation e s -> ~ first_marker_line s m)
+  /\ (c_encoding cfg = true -> forall s c, translation e s -> (exists k, unusual_at (c_isword cfg) s k c) -> explained (c_isword cfg) e c)
+  /\ flags_clean (c_formats cfg) (match me_plural e with Some _ => true | None => false end) (me_flags e)
+  /\ (c_encoding cfg = true -> xml_trigger_comment (me_comment e) ->
+        (c_template cfg = true -> c_xml cfg (me_msgid e) = None)
+        /\ (~ fuzzy e -> me_msgstr e <> [] -> c_xml cfg (me_msgid e) = None -> c_xml cfg (me_msgstr e) = None)).
+Definition clean_catalog_decl (cfg : config) (cat : list msg_entry) : Prop :=
+  ((exists e, In e cat /\ message e) \/ (c_binary cfg = true /\ c_hidden cfg = true))
+  /\ forall j e, nth_error cat j = Some e -> message e -> clean_message cfg cat j e.
